@@ -5,6 +5,8 @@ import json, glob, os, subprocess, sys, concurrent.futures as cf
 ROOT = os.path.dirname(os.path.dirname(os.path.abspath(__file__)))
 tier = "thorough" if "--thorough" in sys.argv else "quick"
 only = [a for a in sys.argv[1:] if a.startswith("C")]
+seed = [a.split("=")[1] for a in sys.argv[1:] if a.startswith("--seed=")]
+seed = seed[0] if seed else "0"
 known = json.load(open(os.path.join(ROOT, "known_findings.json")))
 def matched(pid, ident):
     for k in known:
@@ -16,7 +18,7 @@ def matched(pid, ident):
     return False
 def run(f):
     env = dict(os.environ, PYTHONPATH="/repo:%s/contracts" % ROOT)
-    p = subprocess.run(["/venv/bin/python", f, "--tier", tier, "--seed", "0"], capture_output=True, text=True, env=env, cwd=ROOT)
+    p = subprocess.run(["/venv/bin/python", f, "--tier", tier, "--seed", seed], capture_output=True, text=True, env=env, cwd=ROOT)
     line = [l for l in p.stdout.splitlines() if l.startswith("{")]
     return f, (json.loads(line[-1]) if line else None)
 files = sorted(glob.glob(os.path.join(ROOT, "bounded", "C*.py")))
